@@ -360,7 +360,7 @@ func queueFaults(c *vk.C, rng *rand.Rand, k int) {
 			// honoured unless a fresh notification arrived: the harness writes x only after 2 virtual minutes of quiet, so none did
 			c.Count("requeue_intervals_checked", 1)
 
-			if gap < float64(reqMS) {
+			if gap+0.001 < float64(reqMS) {
 				c.Violation("requeue-delivered-early", map[string]any{"requested_ms": reqMS, "gap_ms": gap, "outcome": recs[i].Fault, "n": recs[i].N})
 			}
 		}
